@@ -50,20 +50,26 @@
 (* Deviation constants (TRUE = the property statement, FALSE = the code):  *)
 (*   ValidateOnStore     StoreCredential applies the type validator (well- *)
 (*                       formed, id in the issuer's namespace) before it   *)
-(*                       stores a network credential; the code only checks *)
-(*                       the signature                [X07-stored-*]       *)
+(*                       stores a network credential (after the id look-up,*)
+(*                       before the signature check).  The code only       *)
+(*                       checked the signature until the repair of         *)
+(*                       X07-stored-* in /repo; TRUE in every config but   *)
+(*                       the vacuity guards since then                     *)
 (*   TransientRetried    an error of the credential / revocation store is  *)
 (*                       answered with a plain error (retried); the code   *)
-(*                       wraps it in EventFatal       [X07-dropped-store]  *)
+(*                       wrapped it in EventFatal until the repair of      *)
+(*                       X07-store-error-dropped (types.ErrStorage)        *)
 (*   UnknownKeyRetried   an issuer key that cannot be resolved yet is      *)
 (*                       retried; the code answers EventFatal: the payload *)
 (*                       is only looked at again by the start-up replay    *)
 (*                       or Reprocess                 [X07-dropped-nokey]  *)
 (*   StoreAtomic         StoreCredential's "is the id taken?" (find) and   *)
-(*                       its write are one critical section; the code      *)
+(*                       its write are one critical section (the code      *)
+(*                       since the repair of X07-store-race: look, verify, *)
+(*                       then look again and write under a mutex).  Before:*)
 (*                       looks, verifies, then writes: two handler calls   *)
 (*                       for one id that overlap (retry goroutine, the     *)
-(*                       REPROCESS subscriber) both write [X07-store-race] *)
+(*                       REPROCESS subscriber) both write                  *)
 (*   ContextErrorsSeen   handleError recognises a JSON-LD context error    *)
 (*                       below the signature check of a CREDENTIAL (not on *)
 (*                       the allow list: acknowledged; remote context not  *)
@@ -145,11 +151,11 @@ CredOutcomeV(c, f, v) ==
         (IF x.iss \notin keys THEN "nokey" ELSE IF x.sig # "ok" THEN "badsig" ELSE IF f THEN "fault" ELSE "blind")
     ELSE IF c \in stored THEN "dup"                                          \* "Credential already exists"
     ELSE IF \E s \in stored : C[s].id = x.id THEN "conflict"                 \* same ID but different content
+    ELSE IF v /\ ~WF(c) THEN "malformed"                                     \* validation failed (type validator, 2-types rule)
     ELSE IF x.iss \notin keys THEN "nokey"                                   \* unable to resolve valid signing key
     ELSE IF x.ctx = "denied" THEN "ctxdenied"                                \* context not on the remoteallowlist
     ELSE IF x.ctx = "flaky" /\ ~ctxUp THEN "ctxdown"                         \* loading remote context failed
     ELSE IF x.sig # "ok" THEN "badsig"
-    ELSE IF v /\ ~WF(c) THEN "malformed"
     ELSE IF f THEN "fault"
     ELSE "stored"
 CredOutcome(c, f) == CredOutcomeV(c, f, ValidateOnStore)
